@@ -6,7 +6,7 @@ import collections
 import json
 import os
 
-from common import (Infra, NCPU, Result, Scratch, build_harness, cfg, match_finding, printed_tuples, run_harness, run_tlc,
+from common import (Infra, NCPU, Result, Scratch, build_harness, cfg, match_finding, printed_tuples, q, run_harness, run_tlc,
                     seed, tlc_ok)
 
 
@@ -132,13 +132,41 @@ def run(tier):
             if bm_traces == len(ls):
                 res.sample({"manager_trace": [[e["ev"], e["r"], e["d"], e["res"]] for e in json.loads(ls[0])["events"]]})
 
+        # 6. shutdown with a full request queue: RequestQueue.tla + the schedule of its rejected variant on the real manager
+        consts = {"Cap": 2 if quick else 3, "Adders": {q("a1"), q("a2")} | (set() if quick else {q("a3")}), "MaxAdds": 3,
+                  "Order": q("conn")}
+        out, st = run_tlc(scratch, "RequestQueue", cfg(consts, spec="Spec", invariants=["TypeOK", "MutexHeld"],
+                                                       properties=["StopCompletes", "NobodyLeftBlocked"]),
+                          workers=NCPU, timeout=2400, name="reqqueue")
+        tlc_ok(out, st, "RequestQueue (interrupt first, as the code)")
+        states += st["distinct"]
+        transitions += st["generated"]
+        out2, st2 = run_tlc(scratch, "RequestQueue", cfg(dict(consts, Cap=2, Adders={q("a1"), q("a2")}, Order=q("chan")), spec="Spec",
+                                                         properties=["StopCompletes"]), workers=NCPU, timeout=1200, name="reqqueue_rev")
+        if "StopCompletes" not in out2 or "violated" not in out2:
+            raise Infra("RequestQueue: closing the queue before the interrupt is not rejected by TLC\n" + out2[-1500:])
+        rc, o, err = run_harness(binary, ["bmq"], timeout=900)
+        if rc != 0 or not o.strip():
+            raise Infra("bmq harness failed: " + err[-2000:])
+        bmq = json.loads(o)["scenarios"]
+        for x in bmq:
+            if x.get("msg"):
+                f = match_finding("C16", x["msg"])
+                if f:
+                    res.add_known(f, x["msg"])
+                    continue
+                res.violation(x["msg"], {"engine": "bmq", "scenario": x})
+        bm_traces += len(bmq)
+
     res.coverage.update({
         "states": states, "transitions": transitions, "traces_validated_against_impl": total_beh + bm_traces,
         "evaluations": total_beh + bm_traces + sum(bdn.values()), "distinct_nontrivial": total_beh + bm_traces,
         "rule": "(a) every behaviour of BlockDownloadGen (all orderings, at quiescence granularity, of: block arrives, tx handed "
                 "over / end of stream, manager Cancel, thread stop, peer drop, shutdown) replayed on a real BlockDownloader; "
                 "(b) seed-chosen schedules on the real BitcoinNode with the block message delivered in pieces; (c) seed-chosen "
-                "scenarios on the real BlockManager recorded and validated by TLC",
+                "scenarios on the real BlockManager recorded and validated by TLC; (d) shutdown with a full request queue: "
+                "RequestQueue.tla (TLC, both closing orders) and the blocked-shutdown schedule of the rejected order played "
+                "on the real manager (1-3 callers, 5-16 requests, silent peers)",
         "exhaustive_cfgs": desc, "downloader_replay": bdl_runs, "node_window_scenarios": bdn,
         "manager_traces_validated": bm_traces, "exhaustive": False,
     })
